@@ -31,6 +31,8 @@ type Mem struct {
 	WriteHook func(name string, off int64, p []byte)
 	// AfterWrite, if set, is called after the bytes are in place.
 	AfterWrite func(name string, off int64, p []byte)
+	// ReadHook, if set, is called before each ReadAt (may sleep).
+	ReadHook func()
 	// FailWrite, if set, is consulted before each write: a non-nil error is returned to the caller and nothing is written.
 	FailWrite func(name string, off int64, p []byte) error
 }
@@ -116,6 +118,9 @@ type MemFile struct {
 }
 
 func (f *MemFile) ReadAt(p []byte, off int64) (int, error) {
+	if h := f.m.ReadHook; h != nil {
+		h()
+	}
 	f.m.mu.Lock()
 	defer f.m.mu.Unlock()
 	if off < 0 || off > int64(len(f.Data)) {
